@@ -151,7 +151,14 @@ type stepSpec struct {
 	Recv  int64  `json:"recv"`  // traffic report
 	Valid bool   `json:"valid"` // body otherwise well-formed (false: a required field is missing / body is not JSON)
 	Claim int    `json:"claim"` // forged identity: SenderId/ReceiverId/Token and body client-id fields name this client index (0 = honest)
-	Ans   int    `json:"ans"`   // who answers a forwarded DNS request: 0 = the client that received it, k = client k's connection, -1 = an unknown connection
+	Ans   int    `json:"ans"`   // who answers a forwarded DNS request first: 0 = only the client that received it, k = client k's connection, -1 = an unknown connection (the receiving client answers afterwards)
+	// registry events instead of a command (the identity of a long-lived connection changes between commands):
+	//   reauth: connection #ci is (re-)bound to client #as by ClientRegistry.UpdateAuth (what a second handshake on the
+	//           same connection does; the connection is registered again first if it had been removed)
+	//   remove: connection #ci is removed from the registry (ClientRegistry.Unregister: the kick / stale-cleanup window), its stream stays open
+	Ev string `json:"ev"`
+	Ci int    `json:"ci"`
+	As int    `json:"as"`
 }
 type caseIn struct {
 	Mode     string     `json:"mode"` // case | detect
@@ -169,7 +176,10 @@ type stepOut struct {
 	Mappings   [][]int64 `json:"mappings"`   // [idx, listen, target, sent, recv] sorted by idx
 	Codes      [][]int64 `json:"codes"`      // [idx, owner, activatedBy]
 	Domains    [][]int64 `json:"domains"`    // [idx, owner]
-	Online     []int64   `json:"online"`     // client indices with a registered, authenticated control connection
+	Online     []int64   `json:"online"`     // client indices the registry resolves to an authenticated control connection
+	Bind       [][]int64 `json:"bind"`       // [connection index, client index] for every long-lived connection the registry knows
+	X          int64     `json:"x"`          // identity the registry held for the sender's connection at dispatch
+	Spoofed    bool      `json:"spoofed"`    // the sender received the answer that was NOT sent by the client the request was forwarded to
 	DiscM      []int64   `json:"disc_m"`     // mapping indices whose id / secret was written to the sender
 	DiscC      []int64   `json:"disc_c"`     // code indices ...
 	DiscD      []int64   `json:"disc_d"`     // domain indices ...
@@ -402,8 +412,14 @@ func (w *world) snapshot(o *stepOut) {
 	o.Online = []int64{}
 	for ci := 1; ci < len(w.clientID); ci++ {
 		cc := w.fx.Session.GetControlConnectionByClientID(w.clientID[ci])
-		if cc != nil && cc.Authenticated && cc.ConnID == w.connID[ci] {
+		if cc != nil && cc.Authenticated {
 			o.Online = append(o.Online, int64(ci))
+		}
+	}
+	o.Bind = [][]int64{}
+	for ci := 1; ci < len(w.connID); ci++ {
+		if cc := w.fx.Session.GetControlConnection(w.connID[ci]); cc != nil {
+			o.Bind = append(o.Bind, []int64{int64(ci), w.idxOfClient(cc.ClientID)})
 		}
 	}
 }
@@ -555,10 +571,49 @@ var cmdSeq int
 func runStep(w *world, s *stepSpec, before *stepOut) stepOut {
 	o := stepOut{PropOK: true}
 	cmdSeq++
+	if s.Ev != "" {
+		if s.Ci <= 0 || s.Ci >= len(w.connID) {
+			o.Err = "bad ci"
+			return o
+		}
+		switch s.Ev {
+		case "reauth":
+			if s.As <= 0 || s.As >= len(w.clientID) {
+				o.Err = "bad as"
+				return o
+			}
+			if w.fx.Session.GetControlConnection(w.connID[s.Ci]) == nil {
+				if conn, ok := w.fx.Session.GetConnection(w.connID[s.Ci]); ok {
+					w.fx.Session.RegisterControlConnection(session.NewControlConnection(conn.ID, conn.Stream, w.conn[s.Ci].RemoteAddr(), "tcp"))
+				}
+			}
+			if err := w.fx.Session.UpdateControlConnectionAuth(w.connID[s.Ci], w.clientID[s.As], ""); err != nil {
+				o.Err = err.Error()
+			}
+		case "remove":
+			// registry entry gone, stream still open: the window KickOldConnection / CleanupStale leave between removing the entry
+			// and closing the stream (ClientRegistry.Unregister is the removal without the close)
+			w.fx.Session.VerifC11ClientRegistry().Unregister(w.connID[s.Ci])
+		default:
+			o.Err = "bad event"
+		}
+		o.Ok = o.Err == ""
+		o.Deliveries, o.DiscM, o.DiscC, o.DiscD, o.SecretLeak = [][]int64{}, []int64{}, []int64{}, []int64{}, []int64{}
+		w.snapshot(&o)
+		return o
+	}
 	connID, sconn, err := senderConn(w, s)
 	if err != nil {
 		o.Err = err.Error()
 		return o
+	}
+	// the identity the connection registry holds for this connection NOW (the only identity the property allows to be used)
+	if cc := w.fx.Session.GetControlConnection(connID); cc != nil {
+		o.X = w.idxOfClient(cc.ClientID)
+	}
+	boundTo := map[int]int64{}
+	for _, b := range before.Bind {
+		boundTo[int(b[0])] = b[1]
 	}
 	for _, c := range w.conn {
 		if c != nil {
@@ -617,23 +672,34 @@ func runStep(w *world, s *stepSpec, before *stepOut) stepOut {
 				}
 				if p.CommandPacket != nil && !p.PacketType.IsCommandResp() &&
 					(p.CommandPacket.CommandType == packet.DNSResolve || p.CommandPacket.CommandType == packet.DNSQuery) {
-					// answer it
-					from := w.connID[ci]
+					// answer it: optionally a spoofed answer on another connection first, then the genuine one from the
+					// connection the request was written to (HandlePacket of a response returns at once)
+					answer := func(from string, spoof bool) {
+						var body []byte
+						if p.CommandPacket.CommandType == packet.DNSResolve {
+							ip := "203.0.113.7"
+							if spoof {
+								ip = "198.51.100.66"
+							}
+							body, _ = json.Marshal(&packet.DNSResolveResponse{Success: true, IPs: []string{ip}, TTL: 60})
+						} else {
+							raw := []byte{9, 9}
+							if spoof {
+								raw = []byte{6, 6, 6}
+							}
+							body, _ = json.Marshal(&packet.DNSQueryResponse{QueryID: "q", Success: true, RawAnswer: raw})
+						}
+						_ = w.fx.Session.HandlePacket(&types.StreamPacket{ConnectionID: from, Timestamp: time.Now(), Packet: &packet.TransferPacket{
+							PacketType: packet.CommandResp, CommandPacket: &packet.CommandPacket{CommandType: p.CommandPacket.CommandType,
+								CommandId: p.CommandPacket.CommandId, CommandBody: string(body)}}})
+					}
 					switch {
-					case s.Ans > 0 && s.Ans < len(w.connID):
-						from = w.connID[s.Ans]
+					case s.Ans > 0 && s.Ans < len(w.connID) && s.Ans != ci:
+						answer(w.connID[s.Ans], true)
 					case s.Ans < 0:
-						from = "conn_verif_unknown_answerer"
+						answer("conn_verif_unknown_answerer", true)
 					}
-					var body []byte
-					if p.CommandPacket.CommandType == packet.DNSResolve {
-						body, _ = json.Marshal(&packet.DNSResolveResponse{Success: true, IPs: []string{"203.0.113.7"}, TTL: 60})
-					} else {
-						body, _ = json.Marshal(&packet.DNSQueryResponse{QueryID: "q", Success: true, RawAnswer: []byte{9, 9}})
-					}
-					go w.fx.Session.HandlePacket(&types.StreamPacket{ConnectionID: from, Timestamp: time.Now(), Packet: &packet.TransferPacket{
-						PacketType: packet.CommandResp, CommandPacket: &packet.CommandPacket{CommandType: p.CommandPacket.CommandType,
-							CommandId: p.CommandPacket.CommandId, CommandBody: string(body)}}})
+					answer(w.connID[ci], false)
 				}
 			}
 		}
@@ -675,7 +741,7 @@ loop:
 				}
 			}
 		}
-		o.Deliveries = append(o.Deliveries, []int64{int64(d.ci), ct, stamped})
+		o.Deliveries = append(o.Deliveries, []int64{boundTo[d.ci], ct, stamped}) // the client the receiving connection is bound to
 	}
 	if o.Deliveries == nil {
 		o.Deliveries = [][]int64{}
@@ -706,9 +772,13 @@ loop:
 					text.WriteString(p.CommandPacket.CommandBody)
 					text.WriteString("\n")
 				}
-				if p.PacketType.IsCommandResp() && (p.CommandPacket.CommandType == packet.DNSResolve || p.CommandPacket.CommandType == packet.DNSQuery) &&
-					strings.Contains(p.CommandPacket.CommandBody, "203.0.113.7") || strings.Contains(p.CommandPacket.CommandBody, "CQk=") {
-					o.Answered = true
+				if p.PacketType.IsCommandResp() && (p.CommandPacket.CommandType == packet.DNSResolve || p.CommandPacket.CommandType == packet.DNSQuery) {
+					if strings.Contains(p.CommandPacket.CommandBody, "203.0.113.7") || strings.Contains(p.CommandPacket.CommandBody, "CQk=") {
+						o.Answered = true
+					}
+					if strings.Contains(p.CommandPacket.CommandBody, "198.51.100.66") || strings.Contains(p.CommandPacket.CommandBody, "BgYG") {
+						o.Spoofed = true
+					}
 				}
 			}
 		}
@@ -757,14 +827,7 @@ func findRow(rows [][]int64, idx int64) []int64 {
 }
 
 func evalProperty(w *world, s *stepSpec, before *stepOut, o *stepOut) {
-	x := int64(0)
-	if s.Conn == "auth" {
-		for _, c := range before.Online {
-			if c == int64(s.Who) {
-				x = int64(s.Who)
-			}
-		}
-	}
+	x := o.X // identity the registry holds for the connection at dispatch, not any identity it held earlier
 	cls := "unauth"
 	if x != 0 {
 		cls = "nonparty"
@@ -874,7 +937,7 @@ func evalProperty(w *world, s *stepSpec, before *stepOut, o *stepOut) {
 		}
 	}
 	// a forwarded DNS request must be answered by the client it was forwarded to
-	if o.Answered && s.Ans != 0 {
+	if o.Spoofed {
 		o.PropOK = false
 		o.PropKey = fmt.Sprintf("cmd%d-resp:any-connection-answers", s.Cmd)
 		o.PropMsg = "a DNS answer sent on a connection other than the target client's was accepted and relayed to the requester"
